@@ -91,7 +91,7 @@ def run_property(spec, tier, seed):
         replayed += len(res)
         for (lf, ob), rec, rr in zip(idx, recs, res):
             rob = next((o for o in rr["obs"] if o["n"] == ob["n"]), None)
-            if rr.get("assume_bad"):
+            if (rob or {}).get("ab", rr.get("assume_bad")):
                 not_reproduced.append((lf, ob, "replay input violates an assumption"))
             elif rob is not None and rob["v"] == "R":
                 reproduced.append((lf, ob, rec, rr))
